@@ -10,11 +10,12 @@ X=""; [ "$R" != "/repo" ] && X="OPSIM_REPO=$R"
 for d in seeded/*/; do
   id=$(basename $d)
   [ -n "$only" ] && [[ "$id" != $only* ]] && continue
+  [ -n "$SKIP_UNTIL" ] && [[ "$id" < "$SKIP_UNTIL" ]] && continue
   props=$(python3 -c "import json;print(' '.join(json.load(open('$d/meta.json'))['detected_by']))")
   git -C $R apply "$(pwd)/$d/patch.diff" 2>/dev/null || { echo "$id PATCH-DOES-NOT-APPLY"; git -C $R checkout -- . ; continue; }
   line="$id"
   for p in $props; do
-    out=$(env $X OPSIM_EVIDENCE_DIR=/tmp/seedeval-evidence ./check $p quick 2>&1); rc=$?
+    out=$(env $X OPSIM_NOMIN=1 OPSIM_EVIDENCE_DIR=/tmp/seedeval-evidence ./check $p quick 2>&1); rc=$?
     if [ $rc -eq 1 ]; then line="$line $p:caught"; elif [ $rc -eq 0 ]; then line="$line $p:REGRESSION"; else line="$line $p:exit$rc"; fi
   done
   git -C $R checkout -- .
